@@ -50,6 +50,8 @@ for it in range(N // 3):
     root = R.choice(['services', 'meta', 'a', '"q r"', '"a"']); mids = R.sample(['x', 'y', 'z', 'w', '"m n"', '"v"'], R.randint(2, 4)); deep = R.random() < 0.5
     leaf = R.choice(['enable', 'enable', '"e f"'])
     lines = ['  %s.%s%s = %d;' % (root, m, '.' + leaf if deep else '', j) for j, m in enumerate(mids)]
+    if R.random() < 0.4: lines = [ln + R.choice([' # keep', ' /* c */', '', '']) for ln in lines]        # eighth round: trivia that the parent attaches to the root binding only
+    if R.random() < 0.25: lines = [x for ln in lines for x in ([ln, ''] if R.random() < 0.3 else [ln])]; lines = lines[:-1] if lines[-1] == '' else lines
     extra = ['  other = 1;'] if R.random() < 0.5 else []
     R.shuffle(extra)
     text = '{\n' + '\n'.join(extra[:1] + lines + extra[1:]) + '\n}\n'
